@@ -5,7 +5,14 @@ from __future__ import annotations
 import json
 import shutil
 
-from ..core import BUILD, Prop, guarded
+from ..core import BUILD, Prop
+from ..core import guarded as _guarded
+
+
+def guarded(fn, *a, **k):
+    """(status, value): status 'ok' or the error class (EValue, ...)"""
+    r = _guarded(fn, *a, **k)
+    return ("ok", r[1]) if r[0] == "ok" else (r[1], r[2])
 from .. import aoef as A
 from .. import aoefgen as GG
 
